@@ -452,7 +452,14 @@ pub fn string_text(tag: u32, content: &[u8], lints: &Lints, what: &str) -> Optio
 			}
 			Some(content.iter().map(|&b| b as char).collect())
 		},
-		T_TELETEX => Some(content.iter().map(|&b| b as char).collect()),
+		T_TELETEX => {
+			// T.61 proper has shift sequences and an 8-bit repertoire; what rcgen's TeletexString admits,
+			// and therefore all it may ever emit, is the range 0x20..=0x7f
+			if !content.iter().all(|&b| (0x20..=0x7f).contains(&b)) {
+				lints.add(format!("{what}: TeletexString outside the alphabet rcgen admits (0x20..=0x7f)"));
+			}
+			Some(content.iter().map(|&b| b as char).collect())
+		},
 		T_BMP => {
 			if content.len() % 2 != 0 {
 				lints.add(format!("{what}: BMPString of odd length"));
